@@ -7,6 +7,9 @@
 (*                    asked for a retry ("temp")                           *)
 (*   close            the framework's PATCH wrote the last-handled state   *)
 (*                    (the cycle is over)                                  *)
+(*   restart          a new operator process took over                     *)
+(* Handlers listed in the trace's `perprocess` (resume handlers) succeed   *)
+(* at most once per object per operator process, whatever cycles pass.     *)
 (* Within a cycle: a handler that succeeded or failed for good is not      *)
 (* invoked again; a handler still due is invoked with retry = the number   *)
 (* of its attempts so far; the cycle is not closed while a handler that    *)
@@ -14,29 +17,33 @@
 (***************************************************************************)
 EXTENDS Naturals, Sequences, FiniteSets, TLC, Json, IOUtils, TLCExt
 Traces == JsonDeserialize(IOEnv.TRACE_FILE)
-VARIABLES tid, l, fin, att, verdict
-vars == <<tid, l, fin, att, verdict>>
+VARIABLES tid, l, fin, att, once, verdict
+vars == <<tid, l, fin, att, once, verdict>>
 T == Traces[tid].events
 E == T[l]
 Ids == {T[i].id : i \in {j \in DOMAIN T : T[j].ev \in {"inv", "done"}}}
-Init == tid \in 1..Len(Traces) /\ l = 1 /\ fin = {} /\ att = [h \in {} |-> 0] /\ verdict = "ok"
+PerProc == {Traces[tid].perprocess[i] : i \in DOMAIN Traces[tid].perprocess}
+Init == tid \in 1..Len(Traces) /\ l = 1 /\ fin = {} /\ att = [h \in {} |-> 0] /\ once = {} /\ verdict = "ok"
 Bad(v) == verdict' = IF verdict = "ok" THEN v ELSE verdict
 Att(h) == IF h \in DOMAIN att THEN att[h] ELSE 0
 Step ==
   /\ l <= Len(T) /\ l' = l + 1 /\ UNCHANGED tid
   /\ CASE E.ev = "inv" ->
-            /\ UNCHANGED <<fin, att>>
-            /\ IF E.id \in fin THEN Bad("invoked_again_after_it_had_finished_in_this_cycle")
+            /\ UNCHANGED <<fin, att, once>>
+            /\ IF E.id \in once THEN Bad("resume_handler_invoked_again_in_the_same_process")
+               ELSE IF E.id \in fin THEN Bad("invoked_again_after_it_had_finished_in_this_cycle")
                ELSE IF E.retry # Att(E.id) THEN Bad("retry_number_differs_from_the_recorded_attempts")
                ELSE UNCHANGED verdict
        [] E.ev = "done" ->
             /\ att' = [h \in DOMAIN att \cup {E.id} |-> IF h = E.id THEN Att(h) + 1 ELSE att[h]]
             /\ fin' = IF E.how \in {"ok", "perm"} THEN fin \cup {E.id} ELSE fin
+            /\ once' = IF E.how \in {"ok", "perm"} /\ E.id \in PerProc THEN once \cup {E.id} ELSE once
             /\ UNCHANGED verdict
        [] E.ev = "close" ->
-            /\ fin' = {} /\ att' = [h \in {} |-> 0]
+            /\ fin' = {} /\ att' = [h \in {} |-> 0] /\ UNCHANGED once
             /\ IF \E h \in DOMAIN att : h \notin fin THEN Bad("cycle_closed_while_a_handler_was_still_due") ELSE UNCHANGED verdict
-       [] OTHER -> UNCHANGED <<fin, att, verdict>>
+       [] E.ev = "restart" -> once' = {} /\ UNCHANGED <<fin, att, verdict>>
+       [] OTHER -> UNCHANGED <<fin, att, once, verdict>>
 Spec == Init /\ [][Step]_vars
 Book == IF l = Len(T) + 1 THEN TLCSet(1, [TLCGet(1) EXCEPT ![tid] = verdict]) ELSE TRUE
 ASSUME TLCSet(1, [i \in 1..Len(Traces) |-> "incomplete"])
